@@ -523,10 +523,17 @@ pixman_composite_trapezoids (pixman_op_t		op,
     _pixman_image_validate (src);
     _pixman_image_validate (dst);
 
+    /* Rasterizing straight into the destination honours neither clip
+     * regions nor an alpha map: it is only a shortcut when the composite
+     * region is the whole destination.
+     */
     if (op == PIXMAN_OP_ADD &&
 	(src->common.flags & FAST_PATH_IS_OPAQUE)		&&
 	(mask_format == dst->common.extended_format_code)	&&
-	!(dst->common.have_clip_region))
+	!(dst->common.have_clip_region)				&&
+	!(dst->common.alpha_map)				&&
+	!(src->common.have_clip_region &&
+	  src->common.clip_sources && src->common.client_clip))
     {
 	for (i = 0; i < n_traps; ++i)
 	{
